@@ -516,7 +516,8 @@ def one_family(ctx, sut, fpm, idx):
     from vlib import gen_dsl  # pylint: disable=import-outside-toplevel
 
     rng = ctx.rng
-    gen = gen_dsl.Gen(rng, max_depth=1, share=0.0, inheritance=1.0, renames=0.5, defaults=0.2)
+    gen = gen_dsl.Gen(rng, max_depth=1, share=0.0, inheritance=1.0, renames=0.5, defaults=0.2,
+                      keyword_names=0.3 if (idx // 4) % 2 else 0.0)
     chain = [gen.klass(1)]
     for _ in range(rng.randint(1, 3)):
         chain.append(gen.klass(1, base=chain[-1]["id"]))
